@@ -17,7 +17,7 @@ def instances(tier):
     return [
         {"label": "faults+reactions", "cfg": IDLE,
          "consts": dict(HttpItems='HttpAll', Items='ItemsQ' if q else 'ItemsT', Cfg='CfgIdle', MaxItems=2 if q else 3,
-                        ChunkMax=2, Faults=ALL_FAULTS, NAddr=2, Reacts={"none", "send", "close"}, ReactAt=REACT_AT,
+                        ChunkMax=2, Faults=ALL_FAULTS, NAddr=2, Reacts={"none", "send", "close"}, ReactAt=REACT_AT, AfterClose=True,
                         MaxReacts=1 if q else 2)},
         {"label": "timers", "cfg": TIMERS,
          "consts": dict(HttpItems='HttpOk', Items='ItemsQ', Cfg='CfgTimers', MaxItems=1 if q else 2, ChunkMax=1,
@@ -44,7 +44,7 @@ def run(tier, seed):
     if tier == 'thorough':
         insts.append({"label": "simulate-deep", "cfg": TIMERS, "simulate": "num=4000", "depth": 120,
                       "consts": dict(HttpItems='HttpAll', Items='ItemsT', Cfg='CfgTimers', MaxItems=8, ChunkMax=3, MaxIdle=6,
-                                     Dts={0, 2, 5}, Faults=ALL_FAULTS, NAddr=2, Reacts={"none", "send", "ping", "close"},
+                                     Dts={0, 2, 5}, Faults=ALL_FAULTS, NAddr=2, AfterClose=True, Reacts={"none", "send", "ping", "close"},
                                      ReactAt=REACT_AT, MaxReacts=4)})
     # liveness on the model: every behaviour terminates (fair scheduling of the library, finite environment)
     consts = dict(sessprop.DEFAULTS)
